@@ -24,6 +24,8 @@ func sqlDriver(args []string) error {
 		return sqlC09(args[1:])
 	case "c11":
 		return sqlC11(args[1:])
+	case "c14":
+		return sqlC14(args[1:])
 	}
 	return fmt.Errorf("unknown sql workload %s", args[0])
 }
@@ -41,7 +43,7 @@ func sqlC06(args []string) error {
 	if exh {
 		// every ordered conjunction of <= 3 atoms on one indexed integer column over 3 constants,
 		// once with the statistics as they are after loading and once after a refresh
-		s, err := newRun(tw, "C06", 400)
+		s, err := newRun(tw, ctxName("C06"), 400)
 		if err != nil {
 			return err
 		}
@@ -78,7 +80,7 @@ func sqlC06(args []string) error {
 	}
 
 	for sc := 0; sc < nscen; sc++ {
-		s, err := newRun(tw, "C06", 400)
+		s, err := newRun(tw, ctxName("C06"), 400)
 		if err != nil {
 			return err
 		}
